@@ -12,6 +12,7 @@ struct Seg {
 	uint64_t t; // delivery time
 	Bytes data;
 	size_t pos = 0;
+	int hold = 0; // > 0: held back by the network until rendezvous `hold` is released (or until t)
 };
 
 struct SentPdu {
@@ -214,6 +215,13 @@ struct World {
 	// event-triggered operator actions ("stop at this point"): the main task waits for the n-th event of a kind
 	int main_task = 0;
 	std::string trig_ev; // "" = none armed
+	// rendezvous delays: bytes of peer `peer` wait until socket `sock` has read all but `before` bytes of its answer `xi`
+	struct Hold {
+		int id, peer, sock, xi;
+		size_t before;
+		bool released;
+	};
+	std::vector<Hold> holds;
 	int trig_sock = -1;
 	long trig_n = 0;
 	bool trig_fired = false;
@@ -239,6 +247,9 @@ struct World {
 	unsigned reads_per_wake = 40; // an operator call (stop/add/remove group) is in progress
 	// digests for metamorphic comparison
 	uint64_t digest_until = UINT64_MAX;
+	uint64_t max_queries = 0, total_queries = 0; // fixed-horizon runs also end after this many queries (same point in every variant)
+	bool tables_cut = false;
+	uint64_t dig_tables_cut = 0;
 	uint64_t dig_states = 0xcbf29ce484222325ull, dig_sent = 0xcbf29ce484222325ull;
 	World(const J &p, RunCtx &c) : plan(p), ctx(c), chunk(1), lat(1) {}
 	int index_of(const rtr_socket *s) const { return sm.index(s); }
